@@ -64,7 +64,7 @@ class Any(pg.Any):
         """
         if len(self.propositions) == 2 and any(map(lambda x: hasattr(x, 'prio'), self.propositions)):
             d = {
-                "id": self.id,
+                **({} if self.generated_id else {"id": self.id}),
                 "type": "Any",
                 "propositions": list(
                     itertools.chain(
@@ -169,7 +169,7 @@ class Xor(pg.Xor):
     def to_json(self):
         if self.default:
             d = {
-                "id": self.id,
+                **({} if self.generated_id else {"id": self.id}),
                 "type": "Xor",
                 "propositions": list(
                     map(
